@@ -492,4 +492,28 @@ def setAlphabet (alphabet : Int) (b : Bag) : Bag × Bool :=
   | some a => ({ b with alphabet := a }, false)
   | none => (b, true)
 
+/-! ### `ReverseComplementSequences` -/
+
+/-- write the buffer `s` into the row with pointer identity `i` (Go: the in-place writes through `*seq`) -/
+def setSeqById (i : Nat) (s : Seq) (rows : List Row) : List Row :=
+  rows.map fun r => if r.id == i then { r with seq := s } else r
+
+/-- the loop of `ReverseComplementSequences(names...)`: every name in order is looked up in the name index
+(`SequenceByName`); a name that is not there is skipped; the row found is complemented in place and, only if that
+succeeded, reversed (`revcompSeq` of the C06 model); the first residue without a complement ends the loop with an
+error (that row is left complemented up to the residue) -/
+def revcompNamedBag : List String → Bag → Bag × Bool
+  | [], b => (b, false)
+  | nm :: rest, b =>
+    match getByName b nm with
+    | none => revcompNamedBag rest b
+    | some r =>
+      let rc := revcompSeq r.seq
+      let b' := { b with rows := setSeqById r.id rc.1 b.rows }
+      if rc.2 then (b', true) else revcompNamedBag rest b'
+
+/-- `seqbag.ReverseComplementSequences(names...)`: an error (nothing touched) unless the alphabet is NUCLEOTIDS -/
+def reverseComplementSequences (names : List String) (b : Bag) : Bag × Bool :=
+  if b.alphabet != NUCLEOTIDS then (b, true) else revcompNamedBag names b
+
 end Gv.Model
